@@ -228,7 +228,7 @@ def main():
       if selected_sep and "kernel_quantizer" in str(e):
         rep.finding("C12-separable-conv-gets-kernel-quantizer-argument",
                     f"model_quantize on a model with a selected SeparableConv2D raises {type(e).__name__}: {str(e)[:160]}", {"dict": d})
-      elif isinstance(e, AssertionError) and "Only integer bits" in str(e):
+      elif (isinstance(e, AssertionError) and "Only integer bits" in str(e)) or "Activation quantizer may NOT contain any parameters" in str(e):
         # the configuration is REJECTED by model_quantize (an adaptive entry with parameters): not a violation; the Coq model
         # must predict the rejection for this (dictionary, preference, model)
         lits_ = []
@@ -239,7 +239,7 @@ def main():
         items.append((i, d, bits, "REJECTED", [a["config"]["name"] for a in cfg0["config"]["layers"]]))
         n_rejected[0] += 1
       else:
-        rep.violation(f"model-quantize-raises-{i}", f"model_quantize raised {type(e).__name__}: {str(e)[:300]}", {"dict": d, "layers": [l.name for l in model.layers]})
+        rep.violation(f"model-quantize-raises-{i}", f"model_quantize raised {type(e).__name__}: {str(e)[:300]} ... {str(e)[-700:]}", {"dict": d, "layers": [l.name for l in model.layers]})
       continue
     n_models += 1
     # source model and caller's dictionary untouched
